@@ -380,7 +380,7 @@ func (g *G) QVal() string {
 	case 9:
 		return g.Digits()
 	case 10:
-		return "." + strconv.Itoa(g.R.Intn(10))
+		return g.R.Pick([]string{".", "0.x5", "1.-", ".7a", "-0.5", "+0.25", "O.5", "1x.0", "-1.", "0.5x", "0..5"}) // not numbers
 	}
 	return "0." + strconv.Itoa(g.R.Intn(10)) + strconv.Itoa(g.R.Intn(10)) + strconv.Itoa(g.R.Intn(10))
 }
@@ -524,7 +524,9 @@ func (g *G) ViaVal() string {
 	if g.R.Chance(1, 12) {
 		sb.WriteString(";" + g.alnum(1, 5) + "=" + g.R.Pick([]string{"\"a,b\"", "\"x;y\"", "\"p,q;branch=zz\"", "\"\\\",\""}))
 	}
-	if g.R.Chance(5, 6) {
+	if g.R.Chance(1, 20) {
+		sb.WriteString(";branch") // a branch parameter without a value
+	} else if g.R.Chance(5, 6) {
 		sb.WriteString(";branch=")
 		switch g.R.Intn(5) {
 		case 0:
